@@ -14,7 +14,7 @@ use vpmodel::spec::ChainSpec;
 pub const DEF: PropDef = PropDef {
     id: "C13",
     level: "exploration",
-    rule: "part 'threads': chains whose blocks hold up to hundreds of transactions and outputs (so that both nested parallel collects really split work) are processed with RAYON_NUM_THREADS in {1,2,3,8,16,64}, with 64 threads pinned to one CPU, and with 4 / 8 threads whose futex calls are delayed by injected syscall delays (every 2nd / 3rd call of every thread), while the other 15 shards keep all cores busy; every run must equal the reference model and the 1-thread run (csvdump byte-identical; simplestats report equal modulo the unordered type list; opreturn text identical; unspent/balances identical row sets). part 'reruns': sequences of 3..6 runs of generated callbacks sharing one data directory and one dump folder that is pre-seeded with longer stale *.tmp files and final-named files of an earlier range; after every run the callback's files must equal the model, no *.tmp of that callback may remain, SHA-256 of every blk*.dat and xor.dat and the key/value content of the index must be unchanged. part 'same-directory-repeated': data directories with competing index records (C04's generator: stale siblings, failed blocks and reorged-out branches with data in a second blk file, header-only records) are processed by 6 fresh processes with different thread counts; all 6 results (exit status and canonical output) must be identical - no model is involved, so the open finding D7 of C04 does not interfere. Non-trivial = >=2 thread settings compared on a block with >=64 txs, a sequence of >=3 runs, or a directory with a competing record at an occupied height; distinct by (chain hash, settings).",
+    rule: "part 'threads': chains whose blocks hold up to hundreds of transactions and outputs (so that both nested parallel collects really split work) are processed with RAYON_NUM_THREADS in {1,2,3,8,16,64}, with 64 threads pinned to one CPU, and with 4 / 8 threads whose futex calls are delayed by injected syscall delays (every 2nd / 3rd call of every thread), while the other 15 shards keep all cores busy; every run must equal the reference model and the 1-thread run (csvdump byte-identical; simplestats report equal modulo the unordered type list; opreturn text identical; unspent/balances identical row sets). part 'reruns': sequences of 3..6 runs of generated callbacks sharing one data directory and one dump folder that is pre-seeded with longer stale *.tmp files and final-named files of an earlier range; after every run the callback's files must equal the model, no *.tmp of that callback may remain, SHA-256 of every blk*.dat and xor.dat and the key/value content of the index must be unchanged. part 'same-directory-repeated': data directories with competing index records (C04's generator: stale siblings, failed blocks and reorged-out branches with data in a second blk file, header-only records) are processed by 6 fresh processes with different thread counts; all 6 results (exit status and canonical output) must be identical - no model is involved, so the open finding D7 of C04 does not interfere. Non-trivial = >=2 thread settings compared on a block with >=64 txs, a sequence of >=3 runs, or a directory with a competing record at an occupied height; distinct by (chain hash, settings). In 'reruns' the chains carry arbitrary header times (incl. a class within hours of the current wall clock) and every run after the first has its wall clock shifted by an LD_PRELOAD shim to within hours or a day of one block's header time, or decades away.",
     assumptions: &["rayon's scheduler cannot be owned from outside: thread counts, CPU pinning and load sample interleavings, they do not enumerate them (DESIGN section 8)"],
     run,
     replay,
@@ -41,7 +41,7 @@ fn chain_cfg(tier: Tier, heavy: bool) -> gen::ChainCfg {
     cfg.tx.max_common = if heavy { 10 } else { 3 };
     cfg.tx.big_counts = false;
     cfg.tx.max_value = 2_100_000_000_000_000 / 4096;
-    cfg.time = gen::monotonic_time();
+    cfg.time = if heavy { gen::monotonic_time() } else { gen::wild_time() };
     cfg
 }
 
@@ -157,6 +157,13 @@ pub fn check_reruns(c: &RerunCase) -> Verdict {
         let e = end.map(|x| x.min(tip)).unwrap_or(tip);
         let mut o = RunOpts::new(built.coin, *cb);
         o.end = end;
+        // every run after the first happens at another date: the wall clock is shifted (LD_PRELOAD shim) to within
+        // hours or a day of one block's header time - before it, after it, two hours around it - or decades away
+        if n > 0 {
+            let t = built.blocks[(n as usize * 7) % built.blocks.len()].1.time as i64;
+            let target = [t - 7230, t + 7230, t, t - 90_000, t + 90_000, t + 3600, 86_400 * 365 * 80, 1_000_000][(n as usize + built.blocks.len()) % 8];
+            o.clock_offset = Some(target - gen::now_epoch() as i64);
+        }
         let mut out = infra!(w.run_in(&dump, &o));
         n += 1;
         if let Some(v) = timed_out_is_infra(&out) {
